@@ -227,7 +227,7 @@ def run_joint(task, variants, tier, ctx_for=None):
                 e.require(False, info={'variant': lab, 'transformed program did not return within %d s on this path' % RUN_LIMIT_S: True}, tag=lab)
                 continue
             except Exception as ex:  # noqa
-                if allow is not None and allow(ex):
+                if allow is not None and (allow(ex, sa.build()) if getattr(allow, 'wants_args', False) else allow(ex)):
                     e.cover('precondition-refusal', True)
                     continue
                 e.require(False, info={'variant': lab, 'transformed raised': repr(ex)[:160]}, tag=lab)
@@ -275,7 +275,7 @@ def replay_joint(case, variants_of):
         except TransformTimeout:
             problems.append((lab, 'original returned %s; the transformed program did not return within %d s' % (_show(r0), RUN_LIMIT_S))); continue
         except Exception as ex:  # noqa
-            if allow is not None and allow(ex):
+            if allow is not None and (allow(ex, concrete_args(shape, inp)) if getattr(allow, 'wants_args', False) else allow(ex)):
                 continue
             problems.append((lab, 'transformed raised %r' % ex)); continue
         if not conc_eq(r0, r1):
